@@ -209,6 +209,11 @@ class RealEng:
                 else:
                     self.opt.step()
                 self.opt.zero_grad()
+                if o[0] == "log" and self.cfg.get("lrdecay"):
+                    # what a torch LR scheduler does through the DP optimizer: the learning rate lives in
+                    # param_groups, which optimizer.state_dict() carries even when `state` is empty
+                    for g in self.opt.param_groups:
+                        g["lr"] *= self.cfg["lrdecay"]
                 return self.obs()
             if o[0] == "ns":
                 if self.nsched is not None:
